@@ -296,7 +296,7 @@ func (l *lexer) tryLexOperator() bool {
 	} else if op == "%" {
 		// Ensure this is not a tag close token "%}".
 		// Go's regexp engine does not support negative lookahead.
-		if l.input[l.pos+1:l.pos+2] == "}" {
+		if strings.HasPrefix(l.input[l.pos+1:], "}") {
 			return false
 		}
 	} else if isAlpha(op) {
@@ -308,8 +308,8 @@ func (l *lexer) tryLexOperator() bool {
 			return false
 		}
 	} else if op == delimTrimWhitespace {
-		switch l.input[l.pos+1 : l.pos+3] {
-		case delimClosePrint, delimCloseTag:
+		rest := l.input[l.pos+1:]
+		if strings.HasPrefix(rest, delimClosePrint) || strings.HasPrefix(rest, delimCloseTag) {
 			return false
 		}
 	}
